@@ -648,22 +648,64 @@ func ruleTabEKU(c *Ctx, r *Rep) {
 			}
 		}
 	}
+	enums, whyEnum := schemaEnumAnyOf(c, "extension.json", []string{"properties", "extendedKeyUsage", "properties", "content", "items", "anyOf"})
+	folded := map[string]string{}
 	if tabFn == nil {
-		r.Undecided("anchor:eku-names", "", "no function maps string labels to extended key usage constants")
-		return
+		// the names are not case labels: the function from a name to its OID that uses the lookup (through a map of
+		// names, a table of entries) is folded for every name of the reference table and of the schema
+		for _, fn := range c.Funcs {
+			res := fn.Signature.Results()
+			if fn.Blocks == nil || len(fn.Params) != 1 || !isString(fn.Params[0].Type()) || res.Len() != 2 || !isOID(res.At(0).Type()) {
+				continue
+			}
+			uses := false
+			for _, ci := range callsIn(fn) {
+				if ci.Common().StaticCallee() == getFn {
+					uses = true
+				}
+			}
+			if uses {
+				tabFn = fn
+			}
+		}
+		if tabFn == nil {
+			r.Undecided("anchor:eku-names", "", "no function maps string labels to extended key usage constants")
+			return
+		}
+		var names []string
+		for _, e := range refList("eku") {
+			names = append(names, rs(e, "name"))
+		}
+		names = append(names, enums...)
+		for _, name := range uniq(names) {
+			fo := c.newFolder()
+			out, ok := fo.Fold(tabFn, []*fval{fconst(constant.MakeString(name))}, 0)
+			if !ok {
+				r.Undecided("shape:eku-names|"+c.FuncKey(tabFn), c.FnPos(tabFn), "the function from a name to its OID cannot be folded for "+name+": "+fo.why)
+				return
+			}
+			if len(out) == 2 && out[1].isNil && out[0].isList {
+				var ints []int
+				for _, e := range out[0].list {
+					n, _ := constant.Int64Val(e.k)
+					ints = append(ints, int(n))
+				}
+				folded[name] = oidString(ints)
+				rows[name] = []int64{-1}
+			}
+		}
 	}
 	pos := c.FnPos(tabFn)
 	for _, e := range refList("eku") {
 		name := rs(e, "name")
 		ix := rows[name]
-		got := ""
+		got := folded[name]
 		if len(ix) == 1 && int(ix[0]) < len(table) && ix[0] >= 0 {
 			got = table[ix[0]]
 		}
 		r.Check(got == rs(e, "oid"), "oid|"+name, pos, rs(e, "oid")+" ("+rs(e, "cite")+")", sprintf("%v -> %s", ix, got))
 	}
-	enums, why := schemaEnumAnyOf(c, "extension.json", []string{"properties", "extendedKeyUsage", "properties", "content", "items", "anyOf"})
-	if why != "" {
+	if why := whyEnum; why != "" {
 		r.Undecided("anchor:schema-enum", "", why)
 		return
 	}
@@ -787,6 +829,16 @@ func ruleTabGN(c *Ctx, r *Rep) {
 					byFn[fn] = append(byFn[fn], row{label, n, mi.Pos()})
 				}
 			}
+		}
+	}
+	for _, t := range c.gnMapTables() {
+		var labels []string
+		for l := range t.rows {
+			labels = append(labels, l)
+		}
+		sort.Strings(labels)
+		for _, l := range labels {
+			byFn[t.fn] = append(byFn[t.fn], row{l, t.rows[l], t.pos})
 		}
 	}
 	want := map[string]int{}
@@ -1027,26 +1079,58 @@ func ruleTabRDN(c *Ctx, r *Rep) {
 			g = x
 		}
 	}
-	if g == nil {
-		r.Undecided("anchor:attributeTypeNames", "", "no map[string]ObjectIdentifier in config")
-		return
-	}
-	ks, vs, why := tableOfGlobal(c, ev, g)
-	if why != "" {
-		r.Undecided("shape:"+g.Name(), c.Pos(g.Pos()), why)
-		return
-	}
 	got := map[string]string{}
-	for i := range ks {
-		k, ok := ks[i].Str()
-		if !ok || vs[i].Kind != "ints" {
-			r.Undecided("shape:"+g.Name(), c.Pos(g.Pos()), "non-literal entry")
+	tablePos := ""
+	if g == nil {
+		// no such map: the lookup function from a short name to its OID is folded for every name of the reference table
+		// and of the schema (a table of structs with a search, a switch, ...)
+		lookup := c.rdnLookupFunc()
+		if lookup == nil {
+			r.Undecided("anchor:attributeTypeNames", "", "no map[string]ObjectIdentifier in config and no func(string) (ObjectIdentifier, error) to fold")
 			return
 		}
-		got[k] = oidString(vs[i].Ints)
+		var names []string
+		for _, e := range refList("rdn") {
+			names = append(names, rs(e, "name"))
+		}
+		if renum, why := schemaEnum(c, "rdn-attribute.json", "enum"); why == "" {
+			names = append(names, renum...)
+		}
+		for _, name := range uniq(names) {
+			fo := c.newFolder()
+			out, ok := fo.Fold(lookup, []*fval{fconst(constant.MakeString(name))}, 0)
+			if !ok {
+				r.Undecided("shape:rdn-lookup|"+c.FuncKey(lookup), c.FnPos(lookup), "the lookup cannot be folded for "+name+": "+fo.why)
+				return
+			}
+			if len(out) == 2 && out[1].isNil && out[0].isList {
+				var ints []int
+				for _, e := range out[0].list {
+					n, _ := constant.Int64Val(e.k)
+					ints = append(ints, int(n))
+				}
+				got[name] = oidString(ints)
+			}
+		}
+		tablePos = c.FnPos(lookup)
+	} else {
+		ks, vs, why := tableOfGlobal(c, ev, g)
+		if why != "" {
+			r.Undecided("shape:"+g.Name(), c.Pos(g.Pos()), why)
+			return
+		}
+		for i := range ks {
+			k, ok := ks[i].Str()
+			if !ok || vs[i].Kind != "ints" {
+				r.Undecided("shape:"+g.Name(), c.Pos(g.Pos()), "non-literal entry")
+				return
+			}
+			got[k] = oidString(vs[i].Ints)
+		}
+		tablePos = c.Pos(g.Pos())
 	}
 	for _, e := range refList("rdn") {
-		r.Check(got[rs(e, "name")] == rs(e, "oid"), "attribute|"+rs(e, "name"), c.Pos(g.Pos()), rs(e, "oid")+" ("+rs(e, "cite")+")", got[rs(e, "name")])
+		r.Check(got[rs(e, "name")] == rs(e, "oid"), "attribute|"+rs(e, "name"), tablePos, rs(e, "oid")+" ("+rs(e, "cite")+")", got[rs(e, "name")])
 	}
 	for k := range got {
 		known := false
@@ -1499,7 +1583,24 @@ func suffixDecides(c *Ctx, r *Rep, want []string) {
 			r.Undecided("shape:suffix-decides|"+fk, c.Pos(site.Pos()), "too many paths to the reader")
 			continue
 		}
+		// predicates of the module that test the suffix inside (a search through the list of suffixes, a pattern)
+		var suffixPredicates []string
+		for _, f := range c.Funcs {
+			if f.Blocks == nil || f.Signature.Results().Len() != 1 || !isBoolType(f.Signature.Results().At(0).Type()) || len(f.Blocks) > 12 {
+				continue
+			}
+			for _, ci := range callsIn(f) {
+				if n := calleeFullName(ci); n == "strings.HasSuffix" || strings.Contains(n, "regexp.Regexp).MatchString") {
+					suffixPredicates = append(suffixPredicates, c.FuncKey(f)+"(")
+				}
+			}
+		}
 		classify := func(atom string) string {
+			for _, sp := range suffixPredicates {
+				if strings.Contains(atom, sp) && !strings.Contains(atom, "HasSuffix(") {
+					return "any"
+				}
+			}
 			if strings.Contains(atom, "HasSuffix(") {
 				for _, w := range want {
 					if strings.Contains(atom, "K(\""+w+"\")") {
@@ -1720,4 +1821,241 @@ func marshalSitesOf(c *Ctx, fn *ssa.Function) []marshalSite {
 func isByteSlice(t types.Type) bool {
 	sl, ok := t.Underlying().(*types.Slice)
 	return ok && types.Identical(sl.Elem(), types.Typ[types.Byte])
+}
+
+// rdnLookupFunc: the function of the configuration package from an attribute short name to its OID.
+func (c *Ctx) rdnLookupFunc() *ssa.Function {
+	var out *ssa.Function
+	for _, fn := range c.Funcs {
+		if fn.Parent() != nil || fn.Pkg == nil || !strings.HasSuffix(fn.Pkg.Pkg.Path(), "generator/config") || len(fn.Params) != 1 || !isString(fn.Params[0].Type()) || fn.Signature.Recv() != nil {
+			continue
+		}
+		res := fn.Signature.Results()
+		if res.Len() != 2 || !isOID(res.At(0).Type()) || !isErrorType(res.At(1).Type()) {
+			continue
+		}
+		// not the one that also accepts dotted OIDs: it calls this one
+		callsAnother := false
+		for _, ci := range callsIn(fn) {
+			if h := ci.Common().StaticCallee(); h != nil && h != fn && c.InModule(h) && h.Signature.Results().Len() == 2 && isOID(h.Signature.Results().At(0).Type()) {
+				callsAnother = true
+			}
+		}
+		if callsAnother {
+			continue
+		}
+		if out != nil && fn.Object() != nil && !fn.Object().Exported() {
+			continue
+		}
+		out = fn
+	}
+	return out
+}
+
+// gnMapTables: general-name label tables written as a package-level map from the type name to an entry that holds a
+// constructor function: per function that looks the map up (comma-ok), the labels it accepts with the kind each
+// constructor makes. A bool field of the entry that the function tests on the way (entries with false are refused)
+// narrows the labels. missIsError: the not-found edge leads to an error return.
+type gnMapTable struct {
+	fn          *ssa.Function
+	rows        map[string]*types.Named
+	pos         token.Pos
+	missIsError bool
+}
+
+func (c *Ctx) gnMapTables() []gnMapTable {
+	ev := c.evaluator()
+	var out []gnMapTable
+	madeKind := func(f *ssa.Function) *types.Named {
+		var kind *types.Named
+		if f == nil || f.Blocks == nil {
+			return nil
+		}
+		for _, ret := range returnsOf(f) {
+			rr := retResults(ret)
+			if len(rr) == 0 {
+				continue
+			}
+			for _, pe := range phiEdges(rr[0], ret.Block()) {
+				mi, ok := pe.Val.(*ssa.MakeInterface)
+				if !ok {
+					continue
+				}
+				n, ok := mi.X.Type().(*types.Named)
+				if !ok || !c.IsModObj(n.Obj()) {
+					continue
+				}
+				if _, _, isGN := marshalTag(c, n); !isGN {
+					continue
+				}
+				if kind != nil && kind != n {
+					return nil
+				}
+				kind = n
+			}
+		}
+		return kind
+	}
+	for _, g := range c.globalsOfType(func(t types.Type) bool {
+		m, ok := t.Underlying().(*types.Map)
+		if !ok || !isString(m.Key()) {
+			return false
+		}
+		st, ok := m.Elem().Underlying().(*types.Struct)
+		if !ok {
+			_, isFn := m.Elem().Underlying().(*types.Signature)
+			return isFn
+		}
+		for i := 0; i < st.NumFields(); i++ {
+			if _, isFn := st.Field(i).Type().Underlying().(*types.Signature); isFn {
+				return true
+			}
+		}
+		return false
+	}) {
+		ks, vs, why := tableOfGlobal(c, ev, g)
+		if why != "" {
+			continue
+		}
+		type entry struct {
+			kind  *types.Named
+			flags map[string]bool
+		}
+		entries := map[string]*entry{}
+		okTable := len(ks) > 0
+		for i := range ks {
+			label, isStr := ks[i].Str()
+			if !isStr {
+				okTable = false
+				break
+			}
+			e := &entry{flags: map[string]bool{}}
+			fnOf := func(v *Val) *ssa.Function {
+				if v != nil && v.Kind == "func" {
+					if f, ok := v.Obj.(*types.Func); ok {
+						return c.Prog.FuncValue(f)
+					}
+				}
+				return nil
+			}
+			switch vs[i].Kind {
+			case "func":
+				e.kind = madeKind(fnOf(vs[i]))
+			case "struct":
+				for name, fv := range vs[i].Fields {
+					if f := fnOf(fv); f != nil {
+						e.kind = madeKind(f)
+					}
+					if b, isB := fv.Bool(); isB {
+						e.flags[name] = b
+					}
+				}
+			}
+			if e.kind == nil {
+				okTable = false
+				break
+			}
+			entries[label] = e
+		}
+		if !okTable {
+			continue
+		}
+		for _, fn := range c.Funcs {
+			for _, b := range fn.Blocks {
+				for _, ins := range b.Instrs {
+					lk, ok := ins.(*ssa.Lookup)
+					if !ok || !lk.CommaOk || loadedGlobal(lk.X) != g {
+						continue
+					}
+					t := gnMapTable{fn: fn, rows: map[string]*types.Named{}, pos: lk.Pos()}
+					// bool fields of the entry that are tested in this function: an entry with false is not served
+					need := map[string]bool{}
+					st, _ := g.Type().Underlying().(*types.Pointer).Elem().Underlying().(*types.Map).Elem().Underlying().(*types.Struct)
+					for _, ref := range *lk.Referrers() {
+						ex, isEx := ref.(*ssa.Extract)
+						if !isEx {
+							continue
+						}
+						if ex.Index == 0 && st != nil {
+							for _, r2 := range *ex.Referrers() {
+								if fld, isF := r2.(*ssa.Field); isF && isBoolType(fld.Type()) {
+									for _, r3 := range *fld.Referrers() {
+										switch r3.(type) {
+										case *ssa.If, *ssa.UnOp, *ssa.Phi:
+											need[st.Field(fld.Field).Name()] = true
+										}
+									}
+								}
+								// the entry kept in a local first
+								if sto, isSt := r2.(*ssa.Store); isSt && sto.Val == ssa.Value(ex) {
+									if al, isAl := sto.Addr.(*ssa.Alloc); isAl {
+										for _, r3 := range *al.Referrers() {
+											fa, isFa := r3.(*ssa.FieldAddr)
+											if !isFa || !isBoolType(fa.Type().Underlying().(*types.Pointer).Elem()) {
+												continue
+											}
+											for _, r4 := range *fa.Referrers() {
+												if ld, isLd := r4.(*ssa.UnOp); isLd && ld.Op == token.MUL {
+													for _, r5 := range *ld.Referrers() {
+														switch r5.(type) {
+														case *ssa.If, *ssa.UnOp, *ssa.Phi:
+															need[st.Field(fa.Field).Name()] = true
+														}
+													}
+												}
+											}
+										}
+									}
+								}
+							}
+						}
+						if ex.Index == 1 {
+							for _, ret := range returnsOf(fn) {
+								if !returnsNonNilError(ret) {
+									continue
+								}
+								for _, gd := range guardsOf(ret.Block()) {
+									cond, truth := gd.Cond, gd.Truth
+									if u, isNot := cond.(*ssa.UnOp); isNot && u.Op == token.NOT {
+										cond, truth = u.X, !truth
+									}
+									if cond == ssa.Value(ex) && !truth {
+										t.missIsError = true
+									}
+								}
+								// `!known || !entry.flag`: the error exit is reached from the not-found edge
+								for _, p := range ret.Block().Preds {
+									if iff, isIf := lastInstr(p).(*ssa.If); isIf {
+										cond, neg := iff.Cond, false
+										if u, isNot := cond.(*ssa.UnOp); isNot && u.Op == token.NOT {
+											cond, neg = u.X, true
+										}
+										if cond == ssa.Value(ex) {
+											if (neg && p.Succs[0] == ret.Block()) || (!neg && p.Succs[1] == ret.Block()) {
+												t.missIsError = true
+											}
+										}
+									}
+								}
+							}
+						}
+					}
+					for label, e := range entries {
+						served := true
+						for name := range need {
+							if v, has := e.flags[name]; has && !v {
+								served = false
+							}
+						}
+						if served {
+							t.rows[label] = e.kind
+						}
+					}
+					out = append(out, t)
+				}
+			}
+		}
+	}
+	sort.Slice(out, func(i, j int) bool { return c.FuncKey(out[i].fn) < c.FuncKey(out[j].fn) })
+	return out
 }
